@@ -60,12 +60,17 @@ def execute(case):
     # equal but DISTINCT variable objects
     import json as _json
     from pydcop.utils.simple_repr import simple_repr, from_repr
+    # the parameter is declared Iterable[Constraint]: a list, but also a one-shot iterator, a tuple, a dict view
     for how, cs in (("", cons), (" (constraints decoded from their wire representation)",
-                                 [from_repr(_json.loads(_json.dumps(simple_repr(c)))) for c in cons])):
+                                 [from_repr(_json.loads(_json.dumps(simple_repr(c)))) for c in cons]),
+                    (" (constraints given as a generator)", (c for c in cons)),
+                    (" (constraints given as a filter object)", filter(None, cons)),
+                    (" (constraints given as a tuple)", tuple(cons)),
+                    (" (constraints given as the values of a dict)", {c.name: c for c in cons}.values())):
         got = assignment_cost(asg, cs, consider_variable_cost=case["withvars"])
         if not num_eq(got, case["exp"]["v"][1]):
             return "assignment_cost(%s, %s, variable costs %s)%s = %r, expected %r" % (
-                asg, [c.name for c in cs], case["withvars"], how, got, case["exp"]["v"][1])
+                asg, [c.name for c in cons], case["withvars"], how, got, case["exp"]["v"][1])
     return None
 
 
